@@ -11,4 +11,5 @@ Extraction "extract/c19_model.ml" extr_anchor
   swap_integer decode_header decode_frame encode_frame trr_frame_at
   mdp_edit mdp_read mdp_get cp2k_update_data cp2k_new_data lmp_write_for_run
   reverse_velocities lmp_read_rows shift_boxbounds
-  cp2k_read cp2k_print cp2k_refs cp2k_apply.
+  cp2k_read cp2k_print cp2k_refs cp2k_apply
+  fx_get fx_read fx_run fx_trace.
